@@ -112,23 +112,30 @@ theorem min2_cases (a b : FV) : Spec.min2 a b = a ∨ Spec.min2 a b = b := by
   by_cases h1 : lt a b = true <;> by_cases h2 : lt b a = true <;> by_cases h3 : (isZero a && isZero b) = true <;>
     by_cases h4 : signBit a = true <;> simp [h1, h2, h3, h4]
 
-theorem foldNaN_eq (op spec2 : FV → FV → FV)
-    (hop : ∀ a b, isNaN a = false → isNaN b = false → op a b = spec2 a b)
-    (hc : ∀ a b, spec2 a b = a ∨ spec2 a b = b) :
-    ∀ (l : List FV) (r : FV), isNaN r = false →
-      foldNaN op r l = if l.any isNaN then .nan else l.foldl spec2 r := by
+theorem foldFlag_flag (op : FV → FV → FV) :
+    ∀ (l : List FV) (r : FV) (n : Bool), (foldFlag op r n l).2 = (n || l.any isNaN) := by
   intro l
   induction l with
-  | nil => intro r _; simp [foldNaN]
+  | nil => intro r n; simp [foldFlag]
+  | cons v rest ih => intro r n; simp only [foldFlag, ih, List.any_cons, Bool.or_assoc]
+
+theorem foldFlag_val (op spec2 : FV → FV → FV)
+    (hop : ∀ a b, isNaN a = false → isNaN b = false → op a b = spec2 a b)
+    (hc : ∀ a b, spec2 a b = a ∨ spec2 a b = b) :
+    ∀ (l : List FV) (r : FV) (n : Bool), isNaN r = false → l.any isNaN = false →
+      (foldFlag op r n l).1 = l.foldl spec2 r := by
+  intro l
+  induction l with
+  | nil => intro r n _ _; simp [foldFlag]
   | cons v rest ih =>
-    intro r hr
-    simp only [foldNaN, List.any_cons, List.foldl_cons]
-    by_cases hv : isNaN v = true
-    · simp [hv]
-    · have hv' : isNaN v = false := by simpa using hv
-      have hn : isNaN (spec2 r v) = false := by rcases hc r v with h | h <;> rw [h] <;> assumption
-      simp only [hv', Bool.false_eq_true, if_false, Bool.false_or]
-      rw [hop r v hr hv', ih _ hn]
+    intro r n hr hl
+    simp only [List.any_cons, Bool.or_eq_false_iff] at hl
+    have hn : isNaN (spec2 r v) = false := by
+      rcases hc r v with h | h
+      · rw [h]; exact hr
+      · rw [h]; exact hl.1
+    simp only [foldFlag, List.foldl_cons]
+    rw [hop r v hr hl.1, ih _ _ hn hl.2]
 
 theorem isNaN_eq (a : FV) (h : isNaN a = true) : a = .nan := by
   cases a <;> simp [isNaN] at h ⊢
@@ -375,6 +382,26 @@ theorem utf16Decode_encode (rs : List Nat) (h : ∀ r ∈ rs, Scalar r) : utf16D
     · simp only [hb, if_false, List.cons_append, List.nil_append]
       rw [utf16Decode, if_pos (by omega), ih']
       congr 1; omega
+
+theorem hasLone_cons_bmp (u : Nat) (hu : ¬(0xD800 ≤ u ∧ u ≤ 0xDFFF)) (rest : List Nat) :
+    hasLone (u :: rest) = hasLone rest := by
+  cases rest with
+  | nil => simp [hasLone]; omega
+  | cons v rest' => rw [hasLone, if_neg (by omega), if_neg (by omega)]
+
+theorem hasLone_encode (rs : List Nat) (h : ∀ r ∈ rs, Scalar r) : hasLone (utf16Encode rs) = false := by
+  induction rs with
+  | nil => simp [utf16Encode, hasLone]
+  | cons r rs ih =>
+    have hs := h r (by simp)
+    have ih' := ih (fun x hx => h x (by simp [hx]))
+    rw [utf16Encode_cons, utf16Encode_one r hs]
+    obtain ⟨h1, h2⟩ := hs
+    by_cases hb : r < 0x10000
+    · simp only [hb, if_true, List.cons_append, List.nil_append]
+      rw [hasLone_cons_bmp r h2, ih']
+    · simp only [hb, if_false, List.cons_append, List.nil_append]
+      rw [hasLone, if_pos (by omega), ih']
 
 theorem escape_unescape_units (rs : List Nat) (h : ∀ r ∈ rs, Scalar r) :
     ∀ m n, (encodeRunes rs).length ≤ m → (escapeAux m (encodeRunes rs)).length ≤ n →
